@@ -24,34 +24,31 @@ Theorem C04_value_tracks : forall s e, reachable_plain s -> e < next s ->
 Proof. exact value_tracks. Qed.
 Print Assumptions C04_value_tracks.
 
-(* Full statement "value = pack results" (none / the single result / the list of results) is REFUTED
-   on the unchanged and on the repaired code when the first result is itself a list (open finding
-   C04-list-result-merged): *)
-Theorem C04_value_refuted : exists roots ls e,
-  let s := exec ls (start roots) in
-  e < next s /\ phase s e = PFin /\ vv (val s e) <> pack (produced (spec s) e (log s)).
-Proof.
-  exists [Ev 1 true false false false SDefault
-            [HP [] (RRet (PList [PInt 1; PInt 2])); HP [] (RRet (PInt 3))]], [LDisp], 0.
-  vm_compute. repeat split; auto. discriminate.
-Qed.
-Print Assumptions C04_value_refuted.
-
-(* ... and holds under exactly the complement hypothesis *)
+(* Full statement (with fixes/C04_list_result.patch: the Value keeps an explicit `_collecting` flag instead of
+   testing `isinstance(_value, list)`): the Value holds nothing / the single result stored as such — also
+   when that result is itself a list — / the list of the results in production order, and it is
+   collecting iff there are several results *)
 Theorem C04_value : forall s e, reachable_plain s -> e < next s ->
-  (match produced (spec s) e (log s) with x :: _ :: _ => is_list x = false | _ => True end) ->
-  vv (val s e) = pack (produced (spec s) e (log s)).
+  vv (val s e) = pack (produced (spec s) e (log s)) /\
+  vcoll (val s e) = (match produced (spec s) e (log s) with _ :: _ :: _ => true | _ => false end).
 Proof. exact value_packed. Qed.
 Print Assumptions C04_value.
 
-Theorem C04_setvalue_pack : forall l,
-  (match l with x :: _ :: _ => is_list x = false /\ is_none x = false | _ => True end) -> accum l = pack l.
+Theorem C04_setvalue_pack : forall l, Forall (fun x => is_none x = false) l -> accum l = pack l.
 Proof. exact accum_pack. Qed.
 Print Assumptions C04_setvalue_pack.
 
-Theorem C04_setvalue_merges : forall l0 y r, accum (PList l0 :: y :: r) = PList (l0 ++ y :: r).
-Proof. exact accum_merged. Qed.
-Print Assumptions C04_setvalue_merges.
+(* the witness of the former finding C04-list-result-merged: handlers returning [1, 2] and then 3 *)
+Example C04_list_first_kept :
+  let s := exec [LDisp] (start [Ev 1 true false false false SDefault
+                                  [HP [] (RRet (PList [PInt 1; PInt 2])); HP [] (RRet (PInt 3))]]) in
+  phase s 0 = PFin /\ vv (val s 0) = PList [PList [PInt 1; PInt 2]; PInt 3] /\ vcoll (val s 0) = true.
+Proof. vm_compute. auto. Qed.
+(* a single list result is stored as such and is not taken for a collection *)
+Example C04_single_list_kept :
+  let s := exec [LDisp] (start [Ev 1 true false false false SDefault [HP [] (RRet (PList [PInt 1; PInt 2]))]]) in
+  vv (val s 0) = PList [PInt 1; PInt 2] /\ vcoll (val s 0) = false.
+Proof. vm_compute. auto. Qed.
 
 (* -- feedback.  [count_der k e (log s)]: number of derived events of kind k fired about e.
    One `exception` event per raise; one <name>_failure per raise iff failure feedback was requested. *)
@@ -188,6 +185,3 @@ Example C04_ex_value :
 Proof. vm_compute. repeat split; reflexivity. Qed.
 Example C04_ex_finished : phase ex_state 0 = PFin /\ phase ex_state 1 = PFin /\ kind ex_state 0 = KUser.
 Proof. vm_compute. auto. Qed.
-Example C04_ex_value_hyp :
-  match produced (spec ex_state) 0 (log ex_state) with x :: _ :: _ => is_list x = false | _ => True end.
-Proof. vm_compute. reflexivity. Qed.
